@@ -91,6 +91,11 @@ def norm_inv(changes, target=None):
     return out
 
 
+def drop_outside(recs, spec):
+    """Without the records whose old and new paths are both outside the filter."""
+    return {c for c in recs if c[0] != "v" or any(p is not None and T.inside(s, p) for s in spec for p in c[2])}
+
+
 def drop_unchanged_outside(recs, spec):
     out = set()
     for c in recs:
@@ -246,6 +251,8 @@ def compare_pair(ctx, a, b, filters, plan_names, is_wt, guards=frozenset()):
                             sim.probe("generic_half_record")
                             got = {c for c in got if not (c[0] == "v" and c[1] in broken)}
                             ref = {c for c in ref if not (c[0] == "v" and c[1] in broken)}
+                    if spec is not None and inc and "filter_unchanged_parent" in guards:
+                        got, ref = drop_outside(got, spec), drop_outside(ref, spec)
                     if spec is not None and inc:
                         # unchanged entries outside the filter (parents that were "evaluated for
                         # changes too") carry no information: one implementation lists them
